@@ -69,7 +69,7 @@ CheckFilter(e) ==
   LET sch == Schs[e.sch]
       r == ParseFilterS(e.ts, sch, e.max, StarOf(e))
   IN /\ Chk(RegexToksOk(e.ts), "generator: regex token inconsistent with RenderPat / ScanQuoted")
-     /\ Chk(e.out # "panic", "parse panicked")
+     /\ Chk(e.out \notin {"panic", "settings-routes-disagree"}, <<"parse outcome", e.out>>)
      /\ Chk(r.ok = e.ok, <<"parse verdict: spec says ok =", r.ok>>)
      /\ r.ok =>
           /\ Chk(e.ast = [c |-> "deep"] \/ AstJson(r.node) = e.ast, <<"ast json, expected", AstJson(r.node)>>)
@@ -87,7 +87,7 @@ CheckFilter(e) ==
 CheckValue(e) ==
   LET sch == Schs[e.sch]
       r == ParseValue(e.ts, sch, e.max)
-  IN /\ Chk(e.out # "panic", "parse_value panicked")
+  IN /\ Chk(e.out \notin {"panic", "settings-routes-disagree"}, <<"parse_value outcome", e.out>>)
      /\ Chk(r.ok = e.ok, <<"parse_value verdict: spec says ok =", r.ok>>)
      /\ r.ok =>
           /\ Chk(ValueAstJson(r.node) = e.ast, <<"value ast json, expected", ValueAstJson(r.node)>>)
@@ -107,7 +107,7 @@ CheckText(e) ==
            ELSE ParseText(e.chars, sch, e.max, e.star, sch.idents)
       reg == IF r.v = "yes" THEN 11 ELSE IF r.v = "no" THEN 12 ELSE 13
   IN /\ TLCSet(reg, TLCGet(reg) + 1)           \* verdict statistics (vacuity control): yes / no / not judged
-     /\ Chk(e.out # "panic", "the parser panicked on the text")
+     /\ Chk(e.out \notin {"panic", "settings-routes-disagree"}, <<"parser outcome on the text", e.out>>)
      /\ r.v # "unspec" =>
           /\ Chk((r.v = "yes") = e.ok, <<"verdict on text: spec says", r.v, "observed ok =", e.ok>>)
           /\ (r.v = "yes" /\ e.ok) =>
